@@ -362,7 +362,7 @@ func cmdRun(args []string) int {
 		for i := 0; i < 5; i++ {
 			cmd := exec.Command(bin, "replay", rp)
 			cmd.Dir = work
-			cmd.Env = append(os.Environ(), "MXJ_WORK="+work)
+			cmd.Env = append(os.Environ(), "MXJ_WORK="+work, "MXJ_RACE_BIN="+raceBin)
 			if err := cmd.Run(); err != nil {
 				if ee, ok := err.(*exec.ExitError); ok && ee.ExitCode() == 1 {
 					repro++
@@ -464,9 +464,16 @@ func cmdReplay(args []string) int {
 		return 2
 	}
 	p, _ := filepath.Abs(args[0])
+	raceBin := ""
+	if data, err := os.ReadFile(p); err == nil && bytes.Contains(data, []byte(`"kind": "race"`)) || bytes.Contains(data, []byte(`"kind":"race"`)) {
+		// a race-detector finding is replayed on the uninstrumented -race build
+		if rb, _, err := buildHarness(work, true, true); err == nil {
+			raceBin = rb
+		}
+	}
 	cmd := exec.Command(bin, "replay", p)
 	cmd.Dir = work
-	cmd.Env = append(os.Environ(), "MXJ_WORK="+work)
+	cmd.Env = append(os.Environ(), "MXJ_WORK="+work, "MXJ_RACE_BIN="+raceBin)
 	cmd.Stdout = os.Stdout
 	cmd.Stderr = os.Stderr
 	if err := cmd.Run(); err != nil {
